@@ -3,11 +3,11 @@ CONSTANTS
  Small = TRUE
  Msgs <- MCMsgs
  RL = 0
- MaxLoss = 2
+ MaxLoss = 1
  MaxT3 = 2
- SkipGapAcked = TRUE
- Depth = 99
-INVARIANTS TypeOK NoReliableSkippedP
-
+ SkipGapAcked = FALSE
+ Depth = 8
+INVARIANTS TypeOK 
+CONSTRAINT EmitCut
 VIEW View
 CHECK_DEADLOCK FALSE
